@@ -6,7 +6,7 @@ import ast
 
 import z3
 
-from .values import (SArr, SBag, SFunc, SObj, SOpt, SSeq, SSlice, SStr, Unsupported, coerce2, concrete,
+from .values import (SArr, SBag, SFunc, SObj, SOpt, SSeq, SSet, SSlice, SStr, Unsupported, coerce2, concrete,
                      is_bool, is_intlike, is_num, is_reallike, is_z3, num_term, snap, snap_finite,
                      to_bool, to_z3)
 
@@ -220,12 +220,107 @@ def p_tuple(ex, args, kw, st):
     return tuple(items)
 
 
+def p_set(ex, args, kw, st):
+    """set(seq) for a symbolic integer sequence: x is a member iff it occurs.  The witness
+    function w gives, for a member, a position where it occurs; the axiom "every element is a
+    member" makes member(x) equivalent to "exists k: seq[k] == x" in every model."""
+    if not args:
+        return SSet(lambda x: z3.BoolVal(False))
+    v = args[0]
+    if isinstance(v, SSet):
+        return v
+    if isinstance(v, range):
+        v = ('symrange', [v.start, v.stop] + ([v.step] if v.step != 1 else []))
+    if isinstance(v, tuple) and len(v) == 2 and v[0] == 'symrange':
+        ra = list(v[1])
+        if len(ra) > 2:
+            raise Unsupported('set of a stepped range')
+        lo, hi = (0, ra[0]) if len(ra) == 1 else ra
+        lo, hi = num_term(lo), num_term(hi)
+        return SSet(lambda x: z3.And(num_term(x) >= lo, num_term(x) < hi))
+    if isinstance(v, (tuple, list)) and all(is_intlike(x) for x in v):
+        items = [num_term(x) for x in v]
+        return SSet(lambda x: z3.Or(*[num_term(x) == t for t in items]) if items
+                    else z3.BoolVal(False))
+    if isinstance(v, SArr) and v.ndim == 1:
+        f = snap(v)
+        v = SSeq(v.shape[0], lambda i, f=f: f((i,)), v.kind)
+    if not isinstance(v, SSeq) or v.kind != 'int':
+        raise Unsupported('set() of this value')
+    uid = next(_bv)
+    n = num_term(v.length)
+    w = z3.Function(f'set_w!{uid}', z3.IntSort(), z3.IntSort())
+    k = z3.Int(f'bv!set{uid}k')
+
+    def member(x, v=v, w=w, n=n):
+        x = num_term(x)
+        return z3.And(w(x) >= 0, w(x) < n, num_term(v.fn(w(x))) == x)
+    elem = num_term(v.fn(k))
+    st.fact(_forall_pat([k], z3.Implies(z3.And(k >= 0, k < n), member(elem)), elem))
+    return SSet(member)
+
+
+def set_to_seq(ex, sset, st):
+    """list(S) / iteration order of a finite set: some enumeration r[0..m) without repetition
+    that lists exactly the members (pos is its inverse)."""
+    uid = next(_bv)
+    m = fresh_int(f'nset{uid}')
+    r = z3.Function(f'set_elem!{uid}', z3.IntSort(), z3.IntSort())
+    pos = z3.Function(f'set_pos!{uid}', z3.IntSort(), z3.IntSort())
+    k, x = z3.Int(f'bv!sl{uid}k'), z3.Int(f'bv!sl{uid}x')
+    st.fact(m >= 0)
+    st.fact(z3.ForAll([k], z3.Implies(z3.And(k >= 0, k < m),
+                                      z3.And(sset.member(r(k)), pos(r(k)) == k)),
+                      patterns=[r(k)]))
+    st.fact(z3.ForAll([x], z3.Implies(sset.member(x),
+                                      z3.And(pos(x) >= 0, pos(x) < m, r(pos(x)) == x)),
+                      patterns=[pos(x)]))
+    return SSeq(m, lambda q: r(num_term(q)), 'int')
+
+
+def p_sorted(ex, args, kw, st):
+    """sorted(S) for a finite set of integers: its members in strictly increasing order."""
+    if kw or len(args) != 1 or not isinstance(args[0], SSet):
+        raise Unsupported('sorted() of this value')
+    seq = set_to_seq(ex, args[0], st)
+    uid = next(_bv)
+    k, m = z3.Int(f'bv!so{uid}k'), z3.Int(f'bv!so{uid}m')
+    st.fact(z3.ForAll([k, m], z3.Implies(z3.And(k >= 0, k < m, m < num_term(seq.length)),
+                                         num_term(seq.fn(k)) < num_term(seq.fn(m)))))
+    return seq
+
+
+def set_method(ex, sset, meth, args, kw, st):
+    if meth in ('difference', 'union', 'intersection') and len(args) == 1 and not kw:
+        other = p_set(ex, [args[0]], {}, st)
+        op = {'difference': ast.Sub, 'union': ast.BitOr, 'intersection': ast.BitAnd}[meth]
+        return ex.binop(op(), sset, other, st)
+    raise Unsupported(f'set.{meth}')
+
+
+def np_insert(ex, args, kw, st):
+    """np.insert(seq, 0, value): the 1-D sequence with one value put in front."""
+    if kw or len(args) != 3 or concrete(args[1]) != 0 or not is_num(args[2]):
+        raise Unsupported('np.insert other than one value at position 0')
+    v = args[0]
+    if isinstance(v, SArr) and v.ndim == 1:
+        f = snap(v)
+        v = SSeq(v.shape[0], lambda i, f=f: f((i,)), v.kind)
+    if not isinstance(v, SSeq):
+        raise Unsupported('np.insert into this value')
+    val = args[2]
+    return SSeq(z3.simplify(num_term(v.length) + 1),
+                lambda i, v=v: ex.ite(num_term(i) == 0, val, v.fn(num_term(i) - 1)), v.kind)
+
+
 def p_list(ex, args, kw, st):
     if not args:
         return []
     v = args[0]
     if isinstance(v, SSeq):
         return v
+    if isinstance(v, SSet):
+        return set_to_seq(ex, v, st)
     return list(p_tuple(ex, args, kw, st))
 
 
@@ -1052,7 +1147,7 @@ TABLE = {
     'int': p_int, 'float': p_float, 'bool': p_bool, 'abs': p_abs, 'np.abs': p_abs,
     'np.fabs': p_abs, 'fabs': p_abs, 'math.fabs': p_abs,
     'min': p_min, 'max': p_max, 'len': p_len, 'isinstance': p_isinstance, 'slice': p_slice,
-    'tuple': p_tuple, 'list': p_list, 'zip': p_zip, 'range': p_range, 'enumerate': p_enumerate,
+    'tuple': p_tuple, 'list': p_list, 'set': p_set, 'sorted': p_sorted, 'np.insert': np_insert, 'zip': p_zip, 'range': p_range, 'enumerate': p_enumerate,
     'sum': p_sum, 'all': p_all_py, 'any': p_any_py, 'round': p_round_unsupported,
     'math.sqrt': p_sqrt, 'np.sqrt': p_sqrt, 'sqrt': p_sqrt,
     'math.sin': p_sin, 'np.sin': p_sin, 'sin': p_sin,
